@@ -22,6 +22,30 @@ import (
 type tracer_IT struct {
 	m         *meter
 	cancelled bool
+	rec       *[]stepRec // non-nil: record every step (only for naming the culprit of a disagreement)
+}
+
+func (t *tracer_IT) record(pc uint64, op vm.OpCode, memory *vm.Memory, stack *vm.Stack, depth int, fault bool) {
+	if len(*t.rec) >= maxTraceSteps {
+		return
+	}
+	s := stepRec{Depth: depth, PC: pc, Op: byte(op), Fault: fault}
+	if stack != nil {
+		d := stack.Data()
+		s.SLen = len(d)
+		switch op {
+		case vm.CALL, vm.CALLCODE, vm.DELEGATECALL, vm.STATICCALL:
+			// the top of the stack is the gas operand (not comparable by the documented deviation)
+		default:
+			if len(d) > 0 {
+				s.Top = string(d[len(d)-1].Bytes())
+			}
+		}
+	}
+	if memory != nil {
+		s.Mem = memDigest(memory.Data())
+	}
+	*t.rec = append(*t.rec, s)
 }
 
 func (t *tracer_IT) CaptureStart(from common.Address, to common.Address, call bool, input []byte, gas uint64, value *big.Int) error {
@@ -30,6 +54,9 @@ func (t *tracer_IT) CaptureStart(from common.Address, to common.Address, call bo
 
 func (t *tracer_IT) CaptureState(env *vm.EVM, pc uint64, op vm.OpCode, gas, cost uint64, memory *vm.Memory, stack *vm.Stack, contract *vm.Contract, depth int, err error) error {
 	m := t.m
+	if t.rec != nil {
+		t.record(pc, op, memory, stack, depth, err != nil)
+	}
 	if err != nil {
 		// the step did not execute
 		if err == vm.ErrOutOfGas {
@@ -71,6 +98,9 @@ func (t *tracer_IT) CaptureState(env *vm.EVM, pc uint64, op vm.OpCode, gas, cost
 }
 
 func (t *tracer_IT) CaptureFault(env *vm.EVM, pc uint64, op vm.OpCode, gas, cost uint64, memory *vm.Memory, stack *vm.Stack, contract *vm.Contract, depth int, err error) error {
+	if t.rec != nil {
+		t.record(pc, op, nil, nil, depth, true)
+	}
 	return nil
 }
 
@@ -175,7 +205,7 @@ func calibrate_IT() {
 		Pre: []account{{Addr: addrOrigin, Balance: 1}, {Addr: addrA, Balance: 1, Nonce: 1, Code: []byte{0x60, 0, 0x60, 0, 0xfd}}},
 		To:  addrA,
 	}
-	r := start_IT(&sideCtx_IT{}, k, workLimitDefault)
+	r := start_IT(&sideCtx_IT{}, k, workLimitDefault, nil)
 	revertErr_IT = r.err
 }
 
@@ -210,7 +240,7 @@ type run_IT struct {
 }
 
 // start_IT executes the transaction.
-func start_IT(c *sideCtx_IT, k *txCase, workLimit uint64) *run_IT {
+func start_IT(c *sideCtx_IT, k *txCase, workLimit uint64, rec *[]stepRec) *run_IT {
 	out := &outcome{w: newWritten()}
 	out.Meter.Limit = workLimit
 	r := &run_IT{out: out}
@@ -237,7 +267,7 @@ func start_IT(c *sideCtx_IT, k *txCase, workLimit uint64) *run_IT {
 
 	sdb := &recDB_IT{StateDB: inner, w: out.w}
 	r.sdb = sdb
-	tr := &tracer_IT{m: &out.Meter}
+	tr := &tracer_IT{m: &out.Meter, rec: rec}
 	evm := vm.NewEVM(context_IT(k), sdb, chainConfig_IT(k.Mode), vmConfig_IT(tr))
 	value := new(big.Int).SetUint64(k.Value)
 	var ret []byte
